@@ -78,6 +78,9 @@ class Universe:
     def __init__(self):
         self.axioms = []
         self.memo = {}
+        # memo keys hold z3 AST ids, which z3 recycles once a term is freed: whatever a key was computed from is kept
+        # alive here for as long as the memo lives
+        self.alive = []
         self.stats = {'z3_checks': 0, 'z3_time': 0.0, 'paths': 0, 'summaries': 0,
                       'summary_hits': 0, 'steps': 0}
         self.max_loop = 0
